@@ -169,18 +169,22 @@ Print Assumptions limit_counts_program_facts_refuted.
 (* The total-size check (S) on the ORDINARY store is what stops a slow recursion (one new
    fact per round: the per-join check (J) and the delta check (D) never see more than one
    fact). Witness p0(1). p0(Y) :- p0(X), Y = fn:plus(X,1). with L = 3: the model returns a
-   limit error with 5 facts within limit_fuel rounds (bound 1 + (1+2)*3 = 10), the same
+   limit error with 4 facts within limit_fuel rounds (bound 1 + (1+2)*3 = 10), the same
    loop without (S) - totalFactLimit = 0, which is what seeded change C17-3 left behind
-   when a temporal store is configured - is still running after 50 rounds with 51 facts.
+   when a temporal store is configured - is still running after 50 rounds with 52 facts.
    "Configuring a temporal store does not change how the ordinary store is limited" is
    therefore part of the correspondence (checks/c17.py runs every limited evaluation with
    and without WithTemporalStore against this one model). *)
 Theorem limit_without_store_check_refuted :
   (exists S, eval_program_lim (limit_fuel 3 0) 3%nat [counter] [[0]] [] [(0, [CNum 1])] = LLimit S /\
-             length S = 5%nat /\ (length S <= limit_bound_fn 3 1 1)%nat) /\
+             length S = 4%nat /\ (length S <= limit_bound_fn 3 1 1)%nat) /\
   (exists S, eval_stratum_noS 50%nat 3%nat (rules_of [counter] [0]) (delta_rules [counter] [0] [0]) [(0, [CNum 1])]
-             = TRunning S /\ length S = 51%nat /\ (limit_bound_fn 3 1 1 < length S)%nat).
+             = TRunning S /\ length S = 52%nat /\ (limit_bound_fn 3 1 1 < length S)%nat).
 Proof.
-  split; eexists; (split; [vm_compute; reflexivity|]); split; vm_compute; auto with arith.
+  split.
+  - eexists. split; [vm_compute; reflexivity|]. split; [vm_compute; reflexivity|].
+    apply Nat.leb_le. vm_compute. reflexivity.
+  - eexists. split; [vm_compute; reflexivity|]. split; [vm_compute; reflexivity|].
+    apply Nat.ltb_lt. vm_compute. reflexivity.
 Qed.
 Print Assumptions limit_without_store_check_refuted.
